@@ -186,7 +186,12 @@ func GenHostile(prop string, seed uint64, thorough bool) *Scenario {
 					ops = append(ops, RawOp{Op: "abort"})
 				default:
 					b, ct := hostileBody(g, eio)
-					ops = append(ops, RawOp{Op: "http", Method: g.picks("POST", "POST", "POST", "PUT", "DELETE"), Query: base, UseSid: true, Body: b, Hdr: map[string]string{"Content-Type": ct}, Async: g.p(0.2), AtMs: g.pick(0, 0, 5, 50), NoCL: g.p(0.1)})
+					op := RawOp{Op: "http", Method: g.picks("POST", "POST", "POST", "PUT", "DELETE"), Query: base, UseSid: true, Body: b, Hdr: map[string]string{"Content-Type": ct}, Async: g.p(0.2), AtMs: g.pick(0, 0, 5, 50), NoCL: g.p(0.1)}
+					if g.p(0.12) && len(b) > 0 {
+						// the upload breaks off with a read error (bad chunk header) while the connection stays usable
+						op.NoCL, op.BodyErrAt = true, int64(1+g.IntN(len(b)+1))
+					}
+					ops = append(ops, op)
 				}
 			}
 		case 2: // upgrade candidate with mismatched revision / odd packets
